@@ -53,20 +53,30 @@ def wellTyped (w : World) : Ty → Obj → Bool
   | .opt _, .none => true
   | .opt t, x => wellTyped w t x
   | .wrap _ t, x => wellTyped w t x
-  | .cls c, .inst c' fs => c == c' && wellTypedF w (w.fields c) fs
+  -- (an instance of an attrs class / dataclass: the class named by a `.cls` position is not a NamedTuple class)
+  | .cls c, .inst c' fs => c == c' && !w.isNT c && wellTypedF w (w.fields c) fs
   | .td c, .dict kvs => wellTypedTD w (w.fields c) kvs
   | .union _ hn, .none => hn
-  | .union cs _, .inst c fs => cs.contains c && wellTypedF w (w.fields c) fs
+  | .union cs _, .inst c fs => cs.contains c && !w.isNT c && wellTypedF w (w.fields c) fs
+  | .nt c, .inst c' fs => c == c' && w.isNT c && wellTypedT w (w.ntTys c) (vals fs)
   | _, _ => false
 termination_by t x => (sizeOf x, sizeOf t)
+decreasing_by
+  all_goals first
+    | decreasing_tactic
+    | (apply Prod.Lex.left; have := sizeOf_vals_lt fs; simp; omega)
 /-- by run-time class (`Any`-typed and untyped positions) -/
 def wellTypedAny (w : World) : Obj → Bool
   | .enumM e m => decide (m < (w.members e).length)
   | .coll _ xs => wellTypedAnyL w xs
   | .dict kvs => wellTypedAnyKV w kvs
-  | .inst c fs => wellTypedF w (w.fields c) fs
+  | .inst c fs => if w.isNT c then wellTypedT w (w.ntTys c) (vals fs) else wellTypedF w (w.fields c) fs
   | _ => true
 termination_by x => (sizeOf x, 0)
+decreasing_by
+  all_goals first
+    | decreasing_tactic
+    | (apply Prod.Lex.left; have := sizeOf_vals_lt fs; simp; omega)
 def wellTypedL (w : World) (t : Ty) : List Obj → Bool
   | [] => true
   | x :: xs => wellTyped w t x && wellTypedL w t xs
@@ -118,7 +128,8 @@ def Obj.isLeafB : Obj → Bool
 mutual
 /-- `Converter` (`gen = true`): everything in the model's universe, literals over leaf values.
 `BaseConverter`: no `Annotated`, no TypedDict, NewType only over primitives, heterogeneous tuples only of
-primitives (DESIGN §7, "documented type support"). -/
+primitives (DESIGN §7, "documented type support"); NamedTuples likewise only of primitives -- a class-table
+condition, `World.SupU.ntPrim`. -/
 def Ty.supU (gen : Bool) : Ty → Bool
   | .lit vs => vs.all Obj.isLeafB
   | .coll _ t => t.supU gen
@@ -139,6 +150,9 @@ end
 structure World.SupU (w : World) (gen : Bool) : Prop where
   fieldsOK : ∀ c, ∀ f ∈ w.fields c, ∀ t, f.ty = some t → t.supU gen = true
   enumLeaf : ∀ e, ∀ v ∈ w.members e, v.isLeafB = true
+  /-- a `BaseConverter` has no NamedTuple unstructure hook (the instance is left as it is): supported only when
+  every field is of a primitive type -/
+  ntPrim : gen = false → ∀ c, w.isNT c = true → ∀ f ∈ w.fields c, ∃ t, f.ty = some t ∧ t.isPrimLeaf = true
 
 /-! ### recursion through TypedDicts
 
@@ -153,6 +167,7 @@ mutual
 def Ty.refs : Ty → List Nat
   | .cls c => [c]
   | .td c => [c]
+  | .nt c => [c]
   | .union cs _ => cs
   | .coll _ t => t.refs
   | .opt t => t.refs
@@ -189,6 +204,8 @@ theorems' hypotheses; `World.supUB_sound` proves it implies `World.SupU`) -/
 def World.supUB (w : World) (gen : Bool) : Bool :=
   w.classes.all (fun c => c.fields.all (fun f => match f.ty with | Option.none => true | some t => t.supU gen))
   && w.enums.all (fun vs => vs.all Obj.isLeafB)
+  && (gen || w.classes.all (fun c => c.kind != .namedtuple ||
+        c.fields.all (fun f => match f.ty with | Option.none => false | some t => t.isPrimLeaf)))
 
 theorem World.supUB_sound (w : World) (gen : Bool) (h : w.supUB gen = true) : w.SupU gen := by
   simp only [World.supUB, Bool.and_eq_true, List.all_eq_true] at h
@@ -199,13 +216,29 @@ theorem World.supUB_sound (w : World) (gen : Bool) (h : w.supUB gen = true) : w.
     | none => rw [hc] at hf; cases hf
     | some k =>
       rw [hc] at hf
-      have := h.1 k (List.mem_of_getElem? hc) f hf
+      have := h.1.1 k (List.mem_of_getElem? hc) f hf
       rw [ht] at this; exact this
   · intro e v hv
     unfold World.members at hv
     cases he : w.enums[e]? with
     | none => rw [he] at hv; cases hv
-    | some vs => rw [he] at hv; exact h.2 vs (List.mem_of_getElem? he) v hv
+    | some vs => rw [he] at hv; exact h.1.2 vs (List.mem_of_getElem? he) v hv
+  · intro hg c hnt f hf
+    have h2 := h.2
+    simp only [hg, Bool.false_or, List.all_eq_true, Bool.or_eq_true, bne_iff_ne, ne_eq] at h2
+    unfold World.fields at hf
+    unfold World.isNT at hnt
+    cases hc : w.classes[c]? with
+    | none => rw [hc] at hf; cases hf
+    | some k =>
+      rw [hc] at hf hnt
+      have hk : k.kind = .namedtuple := by simpa using hnt
+      rcases h2 k (List.mem_of_getElem? hc) with h3 | h3
+      · exact absurd hk h3
+      · have := h3 f hf
+        cases hty : f.ty with
+        | none => rw [hty] at this; cases this
+        | some t => rw [hty] at this; exact ⟨t, rfl, this⟩
 
 /-! ### the documented encoding, as a relation
 
@@ -261,6 +294,11 @@ inductive EncAs (w : World) (cfg : Cfg) : Ty → Obj → Obj → Prop
   | tdB {c kvs out} : cfg.gen = false → EncRtKV w cfg kvs out → EncAs w cfg (.td c) (.dict kvs) (.dict (mkDict out))
   /-- unions of classes (and `None`): by run-time class -/
   | union {cs hn x y} : EncRt w cfg x y → EncAs w cfg (.union cs hn) x y
+  /-- named tuples become tuples, item-wise by the declared field types (Converter) -/
+  | ntG {c c' fs ys} : cfg.gen = true → EncT w cfg (w.ntTys c) (vals fs) ys →
+      EncAs w cfg (.nt c) (.inst c' fs) (.coll .tuple ys)
+  /-- BaseConverter leaves a named tuple as the tuple it is (supported only over primitives) -/
+  | ntB {c c' fs} : cfg.gen = false → EncAs w cfg (.nt c) (.inst c' fs) (.coll .tuple (vals fs))
 
 /-- by run-time class -/
 inductive EncRt (w : World) (cfg : Cfg) : Obj → Obj → Prop
@@ -276,9 +314,14 @@ inductive EncRt (w : World) (cfg : Cfg) : Obj → Obj → Prop
   | coll {ck xs ys} : EncRtL w cfg xs ys →
       EncRt w cfg (.coll ck xs) (mkColl (if cfg.gen then ck.anyTo else ck) ys)
   | dict {kvs out} : EncRtKV w cfg kvs out → EncRt w cfg (.dict kvs) (.dict (mkDict out))
-  | instDict {c fs out} : cfg.tupleStrat = false → EncF w cfg (w.fields c) fs out → EncRt w cfg (.inst c fs) (.dict out)
-  | instTuple {c fs out} : cfg.tupleStrat = true → EncFT w cfg (w.fields c) fs out →
+  | instDict {c fs out} : w.isNT c = false → cfg.tupleStrat = false → EncF w cfg (w.fields c) fs out →
+      EncRt w cfg (.inst c fs) (.dict out)
+  | instTuple {c fs out} : w.isNT c = false → cfg.tupleStrat = true → EncFT w cfg (w.fields c) fs out →
       EncRt w cfg (.inst c fs) (.coll .tuple out)
+  /-- instances of NamedTuple classes: tuples (whatever the strategy) -/
+  | ntG {c fs ys} : w.isNT c = true → cfg.gen = true → EncT w cfg (w.ntTys c) (vals fs) ys →
+      EncRt w cfg (.inst c fs) (.coll .tuple ys)
+  | ntB {c fs} : w.isNT c = true → cfg.gen = false → EncRt w cfg (.inst c fs) (.coll .tuple (vals fs))
 
 inductive EncL (w : World) (cfg : Cfg) : Ty → List Obj → List Obj → Prop
   | nil {t} : EncL w cfg t [] []
